@@ -1,11 +1,19 @@
 --------------------------- MODULE ParamObjectTrace ---------------------------
+(* Trace specification: is a recorded execution of the real ParameterizedObject *)
+(* a behaviour of ParamObject?  Every recorded line {a, arg, obs} must be the   *)
+(* next action with those arguments, and every observable the specification     *)
+(* computes for the step must equal what was observed.  SetParamThrows has two  *)
+(* admissible successors; TLC follows whichever matches the observation.        *)
 EXTENDS ParamObject, Json, IOUtils, TLCExt
 VARIABLE l
 tvars == <<ps, last, l>>
 TraceLines == ndJsonDeserialize(IOEnv.TRACE)
 N == Len(TraceLines)
 Line == TraceLines[l]
-ObsMatches == \A f \in DOMAIN last'.exp : f \in DOMAIN Line.obs /\ Line.obs[f] = last'.exp[f]
+\* (compared through their printed form: TLC refuses to compare values of different kinds, e.g. "throws" with 3;
+\*  observables are integers, strings, booleans and tuples of those, whose printed form is canonical)
+Same(a, b) == ToString(a) = ToString(b)
+ObsMatches == \A f \in DOMAIN last'.exp : f \in DOMAIN Line.obs /\ Same(Line.obs[f], last'.exp[f])
 TInit == Init /\ l = 1
 Dispatch ==
   \/ Line.a = "SetParam" /\ SetParam(Line.arg.n, Line.arg.t, Line.arg.v)
@@ -13,6 +21,13 @@ Dispatch ==
   \/ Line.a = "HasParam" /\ HasParam(Line.arg.n)
   \/ Line.a = "RemoveParam" /\ RemoveParam(Line.arg.n)
   \/ Line.a = "ResetQuery" /\ ResetQuery
+  \/ Line.a = "RemoveParamAt" /\ RemoveParamAt(Line.arg.i)
+  \/ Line.a = "SetParamFrom" /\ SetParamFrom(Line.arg.n, Line.arg.n2)
+  \/ Line.a = "FindOrAdd" /\ FindOrAdd(Line.arg.n)
+  \/ Line.a = "SetParamThrows" /\ SetParamThrows(Line.arg.n)
+  \/ Line.a = "SetRange" /\ SetRange(Line.arg.lo, Line.arg.n, Line.arg.t, Line.arg.d)
+  \/ Line.a = "GetRange" /\ GetRange(Line.arg.lo, Line.arg.n, Line.arg.t)
+  \/ Line.a = "RemoveEvery" /\ RemoveEvery(Line.arg.lo, Line.arg.n, Line.arg.st, Line.arg.r, Line.arg.how)
 TStep  == l <= N /\ Line.a # "Reset" /\ Dispatch /\ ObsMatches /\ l' = l + 1
 TReset == l <= N /\ Line.a = "Reset" /\ ps' = <<>> /\ last' = [a |-> "Init", arg |-> <<>>, exp |-> Proj(<<>>)] /\ l' = l + 1
 TNext  == TStep \/ TReset
